@@ -457,11 +457,31 @@ def rule_tab_epsfilter(P, N=4, blocks=2):
 # ---------------------------------------------------------------- TAB-ASSOC
 
 
-def _compose_leaves(e, fnode=None, depth=0):
+def _def_of(fnode, name, at):
+    d = W.single_def(fnode, name)
+    if d is None and at is not None:
+        rd = W.reaching_def(fnode, name, at)
+        # the lexically last assignment before `at` that sits in the same statement list as an ancestor of `at` (same branch)
+        if rd is not None and rd[1] is not None:
+            lst = None
+            par = parent(rd[0])
+            for fld in ("body", "orelse"):
+                b_ = getattr(par, fld, None)
+                if isinstance(b_, list) and any(x is rd[0] for x in b_):
+                    lst = b_
+            x = at
+            while x is not None and lst is not None:
+                if any(y is x for y in lst):
+                    return rd[1]
+                x = parent(x)
+    return d
+
+
+def _compose_leaves(e, fnode=None, depth=0, at=None):
     """flatten X._compose(Y[, coarsen=..]) trees into the ordered leaf list and the coarsen flags of steps touching the filter;
     a local that names an intermediate machine (`left = self._augment_epsilon_transitions(0)`) stands for its single definition"""
     if fnode is not None and isinstance(e, ast.Name) and depth < 6:
-        d = W.single_def(fnode, e.id)
+        d = _def_of(fnode, e.id, at)
         if isinstance(d, ast.Call):
             e = d
     if isinstance(e, ast.Call) and isinstance(e.func, ast.Attribute) and e.func.attr == "_compose":
@@ -470,14 +490,14 @@ def _compose_leaves(e, fnode=None, depth=0):
             for side in ("lhs", "rhs"):
                 x = lhs if side == "lhs" else rhs
                 if isinstance(x, ast.Name):
-                    d = W.single_def(fnode, x.id)
+                    d = _def_of(fnode, x.id, at)
                     if isinstance(d, ast.Call):
                         if side == "lhs":
                             lhs = d
                         else:
                             rhs = d
-        left = _compose_leaves(lhs, fnode, depth + 1)
-        right = _compose_leaves(rhs, fnode, depth + 1)
+        left = _compose_leaves(lhs, fnode, depth + 1, at)
+        right = _compose_leaves(rhs, fnode, depth + 1, at)
         co = next((k.value for k in e.keywords if k.arg == "coarsen"), None)
         step = (e, co, lhs, rhs)
         return left[0] + right[0], left[1] + right[1] + [step]
@@ -495,7 +515,7 @@ def rule_tab_assoc(P):
     if len(rets) < 1:
         raise AnalysisError("fst.py::FST.__matmul__: composition returns not found")
     for ret in rets:
-        leaves, steps = _compose_leaves(ret.value, f.node)
+        leaves, steps = _compose_leaves(ret.value, f.node, 0, ret)
         txt = [norm(x) for x in leaves]
         want = ["self._augment_epsilon_transitions(0)", "epsilon_filter_fst(self.R, self.B)", f"{o}._augment_epsilon_transitions(1)"]
         ok = txt == want
@@ -651,6 +671,19 @@ def rule_label_pair(P):
 
                     if defs and all(v is not None and pairish(v) for v in defs):
                         ok = True
+                if not ok and isinstance(lab, ast.Call) and isinstance(lab.func, (ast.Attribute, ast.Name)):
+                    # a relabelling helper of the package: every return is a 2-tuple or hands back its (pair) parameter
+                    hname = lab.func.attr if isinstance(lab.func, ast.Attribute) else lab.func.id
+                    cands = [g for g in P.funcs.values() if g.name == hname and g.module.rel == f.module.rel]
+                    if len(cands) == 1:
+                        rets = [x for x in walk_live(cands[0].node) if isinstance(x, ast.Return)]
+                        if rets and all(x.value is not None and ((isinstance(x.value, ast.Tuple) and len(x.value.elts) == 2)
+                                                                 or (isinstance(x.value, ast.Name) and x.value.id in cands[0].params)) for x in rets):
+                            ok = True
+                        else:
+                            r.undecided(f, nd, f"label `{norm(lab)}` comes from a helper whose results are not all visibly pairs", construct=f"label of {first_line(nd)}")
+                            n += 1
+                            continue
                 n += 1
                 r.looked_at(f)
                 r.add(f, nd, ok, "" if ok else f"`{first_line(nd)}`: label `{norm(lab)}` is not an (input, output) pair; T/project/compose "
